@@ -14,7 +14,7 @@ import traceback
 
 import numpy as np
 
-from vf import compiled as C, desc as D, drive, gen as G, oracle as O, workloads as W
+from vf import compiled as C, desc as D, drive, gen as G, oracle as O, refmodel as R, workloads as W
 
 PROP = "C12"
 WATCHDOG_S = 3000
@@ -365,6 +365,73 @@ def reconfigured_fill_engine(M, rec, rng, g, reps):
                           {"desc": desc, "fill_values": [a, b, a], "first": _show(r1), "again": _show(r3)})
 
 
+def finite_difference_steps(M, rec, rng, g, reps):
+    """Sensitivity / calibration by finite differences: the same network objects are stepped from the same values with
+    one parameter moved by a relative 1.5e-8 (scipy's default step) in place.  How much each next state moves must be what
+    the model says (scalar reference evaluated at both parameter values) - a result remembered from the step before
+    (parameters "equal up to float noise") would make it exactly zero."""
+    import copy
+
+    NE, CE = drive.engines(M)
+    for it in range(reps):
+        desc = copy.deepcopy(g.all_kinds_network() if it % 4 == 0 else g.network(("chain", "ramp", "merge", "random")[it % 4])[1])
+        if any(o.get("user") or o.get("user_cap_flow") is not None for o in desc["origins"]) or any(l.get("user_cap") is not None or l.get("user_reorder") for l in desc["links"]):
+            continue
+        ins, outs, org, dst = R.topology(desc)
+        pars = g.pars()
+        kw = drive.step_pars(pars)
+        _, vals = g.values(desc, "interior", allow_inf=False)
+        mains = [o for o in desc["origins"] if o["kind"] == "main"]
+        for o in mains:  # the capacity limit of a mainstream origin is where a link constant enters
+            vals[o["id"]].update(d=rng.uniform(6000.0, 9000.0), w=rng.uniform(20.0, 60.0), v_ctrl=rng.choice((1e3, 500.0)))
+        if R.is_singular(desc, vals):
+            continue
+        if mains and rng.random() < 0.7:
+            l = outs[rng.choice(mains)["node"]][0]
+        else:
+            l = rng.choice(desc["links"])
+        attr = rng.choice(("a", "v_free", "rho_crit"))
+        built = D.build(M, desc)
+        el = built.links[l["id"]]
+        p0 = float(l[attr])
+        eng = NE()
+        try:
+            order = (p0, p0 * (1.0 + 1.5e-8)) if it % 2 == 0 else (p0 * (1.0 + 1.5e-8), p0)
+            res, refs = [], []
+            for p_ in order:
+                setattr(el, attr, p_)
+                l[attr] = p_
+                built.net.step(init_conditions=drive.np_init(built, vals, "vec1"), engine=eng, **kw)
+                res.append(drive.read_next(built))
+                refs.append(R.ref_step(desc, vals, pars, {}).next)
+        except (R.Singular, R.Inadmissible):
+            continue
+        except Exception as e:
+            rec.count("finite_difference_history_raised")
+            rec.seen("finite_difference_history_raised", repr(e)[:100])
+            continue
+        rec.count("finite_difference_pairs")
+        rec.seen("finite_difference_parameters", attr)
+        bad = None
+        for eid, d in refs[0].items():
+            for nm, e0 in d.items():
+                e0s, e1s = (e0 if isinstance(e0, list) else [e0]), (refs[1][eid][nm] if isinstance(refs[1][eid][nm], list) else [refs[1][eid][nm]])
+                r0s, r1s = (res[0][eid][nm] if isinstance(res[0][eid][nm], list) else [res[0][eid][nm]]), (res[1][eid][nm] if isinstance(res[1][eid][nm], list) else [res[1][eid][nm]])
+                for i_, (a0, a1, b0, b1) in enumerate(zip(e0s, e1s, r0s, r1s)):
+                    if not all(map(math.isfinite, (a0, a1, b0, b1))):
+                        continue
+                    rec.count("finite_difference_scalars")
+                    dr, dl = a1 - a0, b1 - b0
+                    if abs(dr) > 1e-9 * (1 + abs(a0)):
+                        rec.count("finite_difference_scalars_that_move")
+                    if abs(dl - dr) > 1e-3 * abs(dr) + 1e-10 * (1.0 + abs(a0)) and bad is None:
+                        bad = {"element": eid, "var": nm, "index": i_, "moved_by": dl, "model_says": dr, "value": b0}
+        if bad is not None:
+            rec.violation(f"{PROP}:numpy: stepping the same objects from the same values with a link parameter moved by a finite-difference step does not move "
+                          f"{bad['var']}+ as the model says (what was stepped before shows)",
+                          dict(bad, desc=desc, parameter=attr, values=list(order), vals=vals, pars=pars))
+
+
 def run(M, rec, tier, seed, k, n):
     np.seterr(all="ignore")
     rng = random.Random(seed * 1000 + k + 1200)
@@ -376,6 +443,7 @@ def run(M, rec, tier, seed, k, n):
         rec.seen("net_signatures", D.signature(desc))
         history(M, rec, rng, g, desc)
     reconfigured_fill_engine(M, rec, rng, g, 30 if tier == "quick" else 300)
+    finite_difference_steps(M, rec, rng, g, 80 if tier == "quick" else 800)
 
 
 def finish(M, rec, write=True):
